@@ -218,6 +218,12 @@ theorem nstep_newPhrase (sh : Shared D L) : NStep sh.com (newPhrase env sh) := b
   · exact nstep_panic _ _
   · exact nstep_fuel _
 
+theorem nstep_openPhrase (sh : Shared D L) : NStep sh.com (openPhrase env sh) := by
+  intro sh' t h
+  rcases openPhrase_cases env h with ⟨h1, _⟩ | ⟨_, rfl⟩
+  · exact nstep_newPhrase env sh sh' t h1
+  · exact ((NoNewSyl.pushCursor _).trans (NoNewSyl.clampCursor _)).trans (NoNewSyl.popCursor _)
+
 theorem nstep_newPhraseSimple (sh : Shared D L) : NStep sh.com (newPhraseSimple sh) := by
   unfold newPhraseSimple
   simp only
@@ -239,7 +245,7 @@ theorem nstep_startSelecting (sh : Shared D L) : NStep sh.com (startSelecting en
   unfold startSelecting
   repeat' split
   all_goals first
-    | exact nstep_newPhrase env _
+    | exact nstep_openPhrase env _
     | exact nstep_newSpecialSymbol _ _
     | nstep_leaf (NoNewSyl.refl _)
 
@@ -248,7 +254,7 @@ theorem nstep_startSelectingOrInputSpace (sh : Shared D L) :
   unfold startSelectingOrInputSpace
   repeat' split
   all_goals first
-    | exact nstep_newPhrase env _
+    | exact nstep_openPhrase env _
     | exact nstep_newSpecialSymbol _ _
     | nstep_leaf (NoNewSyl.refl _)
 
@@ -405,6 +411,13 @@ theorem nsel_selDownSpace (s : Selecting) (sh : Shared D L) : NSel sh.com (selDo
     | exact nsel_fuel _
     | nsel_leaf (NoNewSyl.refl _)
 
+theorem nsel_closeIfEmpty (c0 : CompEditor) (r : SelRes D L) (hr : NoNewSyl c0 r.shared.com) :
+    NSel c0 (closeIfEmpty env r) := by
+  intro x h
+  rcases closeIfEmpty_cases env h with rfl | rfl
+  · exact hr
+  · exact hr.trans (NoNewSyl.popCursor _)
+
 theorem nsel_selMove (s : Selecting) (sh : Shared D L) (isJ : Bool) : NSel sh.com (selMove env s sh isJ) := by
   unfold selMove
   split
@@ -422,12 +435,12 @@ theorem nsel_selMove (s : Selecting) (sh : Shared D L) (isJ : Bool) : NSel sh.co
     split
     · rename_i sh' s' hq
       have := (retarget_com env s _).elim hq
-      intro x h; injection h with h; subst h
+      refine nsel_closeIfEmpty env _ _ ?_
       show NoNewSyl sh.com sh'.com
       rw [this]; exact hr
     · rename_i sh' t _ hq
       have := (retarget_com env s _).elim hq
-      intro x h; injection h with h; subst h
+      refine nsel_closeIfEmpty env _ _ ?_
       show NoNewSyl sh.com sh'.com
       rw [this]; exact hr
     · exact nsel_panic _ _
